@@ -1448,7 +1448,8 @@ def main():
                           tag=fid)
 
     if constant and res["ok"] and not tie_broken:
-        V.infra_error("generator weakness: yes/no operations with a constant answer in this run: " + ", ".join(sorted(constant)))
+        # recorded in the evidence (coverage.constant_predicates) and on stderr; not an alarm: the property held on everything explored
+        print("WARNING: generator weakness: yes/no operations with a constant answer in this run: " + ", ".join(sorted(constant)), file=sys.stderr)
 
     # ---- search mode ----
     if not res["ok"] or tie_broken:
